@@ -80,11 +80,14 @@ Definition holds (c : nat) (t : task) : bool := (task_conn t =? c) && task_stron
 Record lq := mkLq {
   q_pend : list task;       (* pendingFunctors_ *)
   q_batch : list task;      (* swapped out by doPendingFunctors, not run yet *)
-  q_spent : list task       (* ran in the current batch; destroyed when the batch ends *)
+  q_spent : list task;      (* ran in the current batch; destroyed when the batch ends *)
+  q_drain : bool            (* callingPendingFunctors_: the loop thread is between the swap of doPendingFunctors and the
+                               next evaluation of `while (!quit_)` (a drain of an EMPTY batch is such a state too) *)
 }.
 Definition q_all (l : lq) : list task := q_spent l ++ q_batch l ++ q_pend l.
+(* the loop thread is in poll() / dispatching events: not inside a drain *)
 Definition q_idle (l : lq) : bool :=
-  match q_batch l, q_spent l with [], [] => true | _, _ => false end.
+  match q_batch l, q_spent l with [], [] => negb (q_drain l) | _, _ => false end.
 
 Inductive api := AShutdown | AForceClose | AForceCloseDelay | ASend | AStartRead | AStopRead
 | ADtor.   (* not a TcpConnection call: ~TcpClient running on a foreign thread (its local copy of connection_ is the reference) *)
@@ -106,11 +109,15 @@ Record sys := mkSys {
   s_srv : bool;             (* the TcpServer object exists *)
   s_cli : bool;             (* the TcpClient object exists *)
   s_cliconn : option nat;   (* TcpClient::connection_ *)
-  s_calls : list call
+  s_calls : list call;
+  s_stop : nat              (* ~TcpServer destroys threadPool_: ~EventLoopThread of io loop 1, 2, ... in turn does
+                               loop_->quit(); thread_.join().  0 = the pool is alive (or there are no io loops);
+                               j >= 1: io loops 1..j-1 have left loop() and their EventLoop is destroyed, io loop j has
+                               quit_ set and leaves at its next `while (!quit_)`, io loops j+1.. still run *)
 }.
 
 Definition init_sys (nio : nat) (readd : bool) : sys :=
-  mkSys nio readd [] (repeat (mkLq [] [] []) (S nio)) 0 true true None [].
+  mkSys nio readd [] (repeat (mkLq [] [] [] false) (S nio)) 0 true true None [] 0.
 
 (* observations: callbacks and destructions with the thread that ran them *)
 Inductive obs :=
@@ -139,11 +146,17 @@ Definition holders (s : sys) (c : nat) : nat :=
   end.
 
 Definition set_conns (s : sys) (cs : list lc) : sys :=
-  mkSys (s_nio s) (s_readd s) cs (s_loops s) (s_rr s) (s_srv s) (s_cli s) (s_cliconn s) (s_calls s).
+  mkSys (s_nio s) (s_readd s) cs (s_loops s) (s_rr s) (s_srv s) (s_cli s) (s_cliconn s) (s_calls s) (s_stop s).
 Definition set_loops (s : sys) (ls : list lq) : sys :=
-  mkSys (s_nio s) (s_readd s) (s_conns s) ls (s_rr s) (s_srv s) (s_cli s) (s_cliconn s) (s_calls s).
+  mkSys (s_nio s) (s_readd s) (s_conns s) ls (s_rr s) (s_srv s) (s_cli s) (s_cliconn s) (s_calls s) (s_stop s).
 Definition set_calls (s : sys) (cl : list call) : sys :=
-  mkSys (s_nio s) (s_readd s) (s_conns s) (s_loops s) (s_rr s) (s_srv s) (s_cli s) (s_cliconn s) cl.
+  mkSys (s_nio s) (s_readd s) (s_conns s) (s_loops s) (s_rr s) (s_srv s) (s_cli s) (s_cliconn s) cl (s_stop s).
+Definition set_stop (s : sys) (j : nat) : sys :=
+  mkSys (s_nio s) (s_readd s) (s_conns s) (s_loops s) (s_rr s) (s_srv s) (s_cli s) (s_cliconn s) (s_calls s) j.
+
+(* the pool's tear-down as seen by io loop l (the base loop 0 is not the pool's) *)
+Definition quitting (s : sys) (l : nat) : bool := negb (l =? 0) && (l =? s_stop s).   (* quit_ stored, still in loop() *)
+Definition gone (s : sys) (l : nat) : bool := negb (l =? 0) && (l <? s_stop s).       (* loop() returned, EventLoop destroyed *)
 
 Definition put (s : sys) (c : nat) (k : lc) : sys := set_conns s (upd (s_conns s) c k).
 
@@ -151,7 +164,7 @@ Definition put (s : sys) (c : nat) (k : lc) : sys := set_conns s (upd (s_conns s
 Definition enq (s : sys) (l : nat) (t : task) : sys :=
   match nth_error (s_loops s) l with
   | None => s
-  | Some lqv => set_loops s (upd (s_loops s) l (mkLq (q_pend lqv ++ [t]) (q_batch lqv) (q_spent lqv)))
+  | Some lqv => set_loops s (upd (s_loops s) l (mkLq (q_pend lqv ++ [t]) (q_batch lqv) (q_spent lqv) (q_drain lqv)))
   end.
 
 (* ---- channel / poller ------------------------------------------------------------------------ *)
@@ -245,7 +258,7 @@ Definition close_cb (s : sys) (thr c : nat) : M :=
               if negb (c' =? c) then Fault else                      (* assert(connection_ == conn) *)
               let s1 := put s c (set_own k (k_ccb k) false (k_urefs k) (k_delayed k)) in
               ret (enq (mkSys (s_nio s1) (s_readd s1) (s_conns s1) (s_loops s1) (s_rr s1) (s_srv s1) (s_cli s1)
-                              None (s_calls s1)) 0 (TDestroy c))
+                              None (s_calls s1) (s_stop s1)) 0 (TDestroy c))
           | None => Fault
           end
       | CbDetail => ret (enq s (k_loop k) (TDestroy c))              (* detail::removeConnection *)
@@ -384,8 +397,19 @@ Inductive op :=
 Definition foreign_thr (u : nat) : nat := 100 + u.
 
 Definition getl (s : sys) (l : nat) : option lq := nth_error (s_loops s) l.
+(* the thread of loop l is in poll() / dispatching events (and the loop still exists) *)
 Definition loop_idle (s : sys) (l : nat) : bool :=
-  match getl s l with Some v => q_idle v | None => false end.
+  match getl s l with Some v => q_idle v && negb (gone s l) | None => false end.
+(* H7: no io loop is inside a drain (between the swap of doPendingFunctors and the next `while (!quit_)`) *)
+Definition io_idle (s : sys) : bool := forallb q_idle (tl (s_loops s)).
+(* H8: a user reference to / a foreign call on a live connection of loop l is outstanding *)
+Fixpoint outlived_from (s : sys) (l : nat) (cs : list lc) (c : nat) : bool :=
+  match cs with
+  | [] => false
+  | k :: r => (k_alive k && (k_loop k =? l) && negb ((k_urefs k =? 0) && (count_calls c (s_calls s) =? 0)))
+              || outlived_from s l r (S c)
+  end.
+Definition outlived (s : sys) (l : nat) : bool := outlived_from s l (s_conns s) 0.
 
 Fixpoint find_call (u : nat) (l : list call) : option call :=
   match l with
@@ -417,7 +441,7 @@ Definition accept (s : sys) : M :=
   let rr := if s_nio s =? 0 then 0 else (if S (s_rr s) <? s_nio s then S (s_rr s) else 0) in
   let c := length (s_conns s) in
   let s1 := mkSys (s_nio s) (s_readd s) (s_conns s ++ [fresh io CbServer]) (s_loops s) rr (s_srv s) (s_cli s)
-                  (s_cliconn s) (s_calls s) in
+                  (s_cliconn s) (s_calls s) (s_stop s) in
   if io =? 0 then establish s1 0 c else ret (enq s1 io (TEstablish c)).
 
 (* ~TcpServer: for every entry of connections_, reset it and runInLoop(connectDestroyed) *)
@@ -441,9 +465,9 @@ Fixpoint srv_destroy_from (s : sys) (n c : nat) : M :=
   end.
 
 Definition set_srv (s : sys) (b : bool) : sys :=
-  mkSys (s_nio s) (s_readd s) (s_conns s) (s_loops s) (s_rr s) b (s_cli s) (s_cliconn s) (s_calls s).
+  mkSys (s_nio s) (s_readd s) (s_conns s) (s_loops s) (s_rr s) b (s_cli s) (s_cliconn s) (s_calls s) (s_stop s).
 Definition set_cli (s : sys) (b : bool) (cc : option nat) : sys :=
-  mkSys (s_nio s) (s_readd s) (s_conns s) (s_loops s) (s_rr s) (s_srv s) b cc (s_calls s).
+  mkSys (s_nio s) (s_readd s) (s_conns s) (s_loops s) (s_rr s) (s_srv s) b cc (s_calls s) (s_stop s).
 
 Definition cli_connect (s : sys) : M :=
   if negb (s_cli s) then Rejected else
@@ -452,7 +476,7 @@ Definition cli_connect (s : sys) : M :=
   | None =>
       let c := length (s_conns s) in
       let s1 := mkSys (s_nio s) (s_readd s) (s_conns s ++ [fresh 0 CbClient]) (s_loops s) (s_rr s) (s_srv s) (s_cli s)
-                      (Some c) (s_calls s) in
+                      (Some c) (s_calls s) (s_stop s) in
       establish s1 0 c
   end.
 
@@ -539,19 +563,26 @@ Definition on_conn (s : sys) (c : nat) (f : lc -> M) : M :=
   | Some k => if k_alive k && negb (cstate_eqb (k_st k) Connecting) then f k else Rejected
   | None => Rejected
   end.
+(* an API call made on the connection's own loop thread (inside a callback): that thread must still exist *)
+Definition on_lconn (s : sys) (c : nat) (f : lc -> M) : M :=
+  on_conn s c (fun k => if gone s (k_loop k) then Rejected else f k).
 
 Definition step (strict : bool) (s : sys) (o : op) : M :=
   match o with
   | Accept => finish (accept s) 0
   | SrvDestroy =>
       if negb (s_srv s) then Rejected else
-      if strict && (has_task is_remove s || has_task is_force s) then Rejected else
-      finish (bind (srv_destroy_from s (length (s_conns s)) 0) (fun s1 => ret (set_srv s1 false))) 0
+      if strict && (has_task is_remove s || has_task is_force s) then Rejected else            (* H2 *)
+      if strict && negb (io_idle s) then Rejected else                                         (* H7 *)
+      (* the body, then the members die: threadPool_ -> ~EventLoopThread of io loop 1: loop_->quit(); thread_.join() *)
+      finish (bind (srv_destroy_from s (length (s_conns s)) 0)
+                   (fun s1 => ret (set_stop (set_srv s1 false) (if s_nio s =? 0 then 0 else 1)))) 0
   | CliConnect => finish (cli_connect s) 0
   | CliDestroy => finish (cli_destroy strict s) 0
   | Swap l =>
       match getl s l with
-      | Some v => if q_idle v then ret (set_loops s (upd (s_loops s) l (mkLq [] (q_pend v) []))) else Rejected
+      | Some v => if q_idle v && negb (gone s l)
+                  then ret (set_loops s (upd (s_loops s) l (mkLq [] (q_pend v) [] true))) else Rejected
       | None => Rejected
       end
   | Run l full wc =>
@@ -559,7 +590,7 @@ Definition step (strict : bool) (s : sys) (o : op) : M :=
       | Some v =>
           match q_batch v with
           | t :: rest =>
-              finish (run_task (set_loops s (upd (s_loops s) l (mkLq (q_pend v) rest (q_spent v ++ [t])))) l t full wc) l
+              finish (run_task (set_loops s (upd (s_loops s) l (mkLq (q_pend v) rest (q_spent v ++ [t]) (q_drain v)))) l t full wc) l
           | [] => Rejected
           end
       | None => Rejected
@@ -567,9 +598,17 @@ Definition step (strict : bool) (s : sys) (o : op) : M :=
   | EndBatch l =>
       match getl s l with
       | Some v =>
-          match q_batch v, q_spent v with
-          | [], _ :: _ => finish (ret (set_loops s (upd (s_loops s) l (mkLq (q_pend v) [] [])))) l
-          | _, _ => Rejected
+          match q_batch v with
+          | [] =>
+              if negb (q_drain v) then Rejected else
+              if quitting s l then
+                (* `while (!quit_)` fails: loop() returns, the EventLoop on the io thread's stack is destroyed and with it the
+                   functors of the batch AND whatever is still in pendingFunctors_ - there is no drain after the while loop
+                   (their bound shared_ptrs die on this thread); join() returns and the next io loop is told to quit *)
+                if strict && outlived s l then Rejected else                                   (* H8 *)
+                finish (ret (set_stop (set_loops s (upd (s_loops s) l (mkLq [] [] [] false))) (S l))) l
+              else finish (ret (set_loops s (upd (s_loops s) l (mkLq (q_pend v) [] [] false)))) l
+          | _ :: _ => Rejected
           end
       | None => Rejected
       end
@@ -587,18 +626,18 @@ Definition step (strict : bool) (s : sys) (o : op) : M :=
       | None => Rejected
       end
   | LShutdown c =>
-      on_conn s c (fun k => ret (if cstate_eqb (k_st k) Connected
+      on_lconn s c (fun k => ret (if cstate_eqb (k_st k) Connected
                                  then put s c (shutdown_in_loop (set_life k Disconnecting (k_ups k) (k_downs k))) else s))
-  | LForceClose c => on_conn s c (fun _ => ret (force_close s c))
+  | LForceClose c => on_lconn s c (fun _ => ret (force_close s c))
   | LForceCloseDelay c =>
-      on_conn s c (fun k => ret (if k_closable k
+      on_lconn s c (fun k => ret (if k_closable k
                                  then put s c (set_own (set_life k Disconnecting (k_ups k) (k_downs k))
                                                        (k_ccb k) (k_mapped k) (k_urefs k) (S (k_delayed k)))
                                  else s))
   | LSend c full wc =>
-      on_conn s c (fun k => ret (if cstate_eqb (k_st k) Connected then send_in_loop s c full wc else s))
-  | LStartRead c => on_conn s c (fun k => if k_added k then ret (start_read s c) else Rejected)
-  | LStopRead c => on_conn s c (fun k => if k_added k then ret (stop_read s c) else Rejected)
+      on_lconn s c (fun k => ret (if cstate_eqb (k_st k) Connected then send_in_loop s c full wc else s))
+  | LStartRead c => on_lconn s c (fun k => if k_added k then ret (start_read s c) else Rejected)
+  | LStopRead c => on_lconn s c (fun k => if k_added k then ret (stop_read s c) else Rejected)
   | UGrab c =>
       on_conn s c (fun k => ret (put s c (set_own k (k_ccb k) (k_mapped k) (S (k_urefs k)) (k_delayed k))))
   | UDrop c =>
@@ -661,7 +700,9 @@ Definition step (strict : bool) (s : sys) (o : op) : M :=
                 finish (ret (set_cli (put s1 c (set_own k (k_ccb k) false (k_urefs k) (k_delayed k))) false None)) (foreign_thr u)
               else
               let raw := match a_api a with AForceClose | AForceCloseDelay => false | _ => true end in
-              if strict && raw && a_loaded a && negb pin then Rejected else
+              if strict && raw && a_loaded a && negb pin then Rejected else                 (* H1 *)
+              (* queueInLoop / runAfter on an EventLoop that the pool's tear-down has destroyed *)
+              if a_loaded a && gone s (k_loop k) then (if strict then Rejected else Fault) else (* H8 *)
               let s1 := set_calls s (drop_call u (s_calls s)) in
               let s2 :=
                 if a_loaded a then
